@@ -18,10 +18,14 @@
 package ucfg
 
 import (
+	"math"
 	"reflect"
 	"regexp"
 	"time"
 )
+
+// largest number of full seconds fitting into a time.Duration
+const maxDurationSeconds = math.MaxInt64 / int64(time.Second)
 
 // Unpack unpacks c into a struct, a map, or a slice allocating maps, slices,
 // and pointers as necessary.
@@ -785,11 +789,26 @@ func reifyDuration(
 
 	switch v := val.(type) {
 	case *cfgInt:
+		if v.i > maxDurationSeconds || v.i < -maxDurationSeconds {
+			return reflect.Value{}, raiseInvalidDuration(val, ErrOverflow)
+		}
 		d = time.Duration(v.i) * time.Second
 	case *cfgUint:
+		if v.u > uint64(maxDurationSeconds) {
+			return reflect.Value{}, raiseInvalidDuration(val, ErrOverflow)
+		}
 		d = time.Duration(v.u) * time.Second
 	case *cfgFloat:
-		d = time.Duration(v.f * float64(time.Second))
+		// convert full seconds and the fraction separately: the product
+		// seconds*1e9 is not exact in float64 for large values
+		sec, frac := math.Modf(v.f)
+		if math.IsNaN(v.f) || sec > float64(maxDurationSeconds) || sec < -float64(maxDurationSeconds) {
+			return reflect.Value{}, raiseInvalidDuration(val, ErrOverflow)
+		}
+		d = time.Duration(sec)*time.Second + time.Duration(frac*float64(time.Second))
+		if (sec > 0 && d < 0) || (sec < 0 && d > 0) {
+			return reflect.Value{}, raiseInvalidDuration(val, ErrOverflow)
+		}
 	case *cfgString:
 		d, err = time.ParseDuration(v.s)
 	default:
